@@ -379,6 +379,12 @@ def handle : List String → String
     match parseCells cells, fromHex rest, fromHex bytes, parseObsCells impl with
     | some cells, some rest, some bytes, some impl => handleSrt cells rest bytes impl
     | _, _, _, _ => "BAD args"
+  | ["mut", kind, onev, ts, key, map, proto, cb, count, size, pbHead, cbHead] =>
+    -- the mutation-level fields (timestamp, type, durability, row) of the protobuf form and of the
+    -- cellblock form: a mutation without cells (whole-row delete) carries its timestamp only there
+    if pbHead ≠ cbHead then
+      s!"SPEC key=mut-encodings-differ-mutation-header-{kind} proto={pbHead} cellblock={cbHead}"
+    else handle ["mut", kind, onev, ts, key, map, proto, cb, count, size]
   | ["mut", kind, onev, ts, key, map, proto, cb, count, size] =>
     match parseKind kind, ts.toNat?, fromHex key, parseMap map, count.toInt?, size.toNat? with
     | some kind, some ts, some key, some m, some count, some size =>
